@@ -459,6 +459,7 @@ private:
   explicit Context(const Context& ctx);
   Context * createChildShell(Context& root) const;
   Context * createChildRuntime(Context& root, uint8_t recursion) const;
+  void resetChildRuntime(Context& runtime) const;
 };
 
 }
